@@ -41,11 +41,7 @@ impl Bytes {
     #[verifier::external_body]
     pub fn copy_to_bytes(&mut self, n: usize) -> (r: Bytes) requires n <= old(self)@.len() ensures r@ == old(self)@.take(n as int), final(self)@ == old(self)@.skip(n as int) { unimplemented!() }
 }
-// the HTTP/1 header block of a trailers map (PROTOCOL-WEB.md): one `name:value\r\n` row per entry, in iteration order
-pub open spec fn trailer_row(e: (Seq<char>, Seq<u8>)) -> Seq<u8> { ascii_bytes(e.0) + seq![58u8] + e.1 + seq![13u8, 10u8] }
-pub open spec fn block_of(s: Seq<(Seq<char>, Seq<u8>)>) -> Seq<u8> decreases s.len() {
-    if s.len() == 0 { Seq::<u8>::empty() } else { block_of(s.drop_last()) + trailer_row(s.last()) }
-}
+/*ROWSPEC*/
 pub open spec fn trailer_block(h: HMap) -> Seq<u8> { block_of(hmap_entries(h)) }
 // A-tonic-web-04: a trailers header block stays below 4 GiB (HeaderMap holds at most 2^15 entries of bounded size)
 pub broadcast axiom fn axiom_trailer_block_small(h: HMap) ensures (#[trigger] trailer_block(h)).len() <= u32::MAX;
@@ -160,7 +156,7 @@ def build():
     u = Unit('webserver', ['C16'])
     common.http_base(u)
     u.prelude('wire.rs')
-    u.raw(SHIMS)
+    u.raw(SHIMS.replace('/*ROWSPEC*/', common.TRAILER_ROW_SPEC))
     u.item(C, 'const', 'FRAME_HEADER_SIZE')
     u.item(C, 'const', 'GRPC_WEB_TRAILERS_BIT')
     u.item(C, 'enum', 'Direction', derives='Copy, Clone, PartialEq, Structural')
